@@ -8,6 +8,7 @@ import ScriggoV.Lemmas.SlotsLexerWitness
 import ScriggoV.Lemmas.LexCtxSim
 import ScriggoV.Lemmas.LexCtxRefine
 import ScriggoV.Lemmas.LexShowPreserve
+import ScriggoV.Lemmas.LexCtxAllScan
 /-! # C06 — autoescaping confines every shown untrusted value to its syntactic slot
 
 **Layer 1** (every escaper keeps its output inside the slot). The reference scanners of the
@@ -29,9 +30,14 @@ the Scriggo context a value shown there needs. The proof goes through `Model/Lex
 projection of C04/C21's lexer model (`Model/Lexer/*`) onto its context fields:
 `Lemmas/LexCtxRefine*.lean` (the full model's `mainLoop` refines the projection; the first `{{`
 token carries the projected context) and `Lemmas/LexCtxSim*.lean` (the projection simulates the
-reference tokenizer on `D`). NOT proved: agreement at the second and later holes (only the
-building block `show_preserves_context`: lexing a show changes none of the context fields), the
-`type` attribute of script/style (hence the JSON context), Markdown files. The full statement
+reference tokenizer on `D`). For EVERY hole: `ctx_agree_all_partial` — templates all of whose
+delimiters are shows `{{identifier}}` standing at stable points (not in the Tag context, not
+directly after `<`), the reference reading the template text as it is (`Lemmas/LexCtxAll*.lean`:
+the relation is carried across a show, `lexShow` on `{{identifier}}` consumes exactly it, and
+`show_preserves_context`: lexing ANY show changes none of the context fields). NOT proved: later
+holes of templates with other delimiters (`{% %}`, `{# #}`) or with shows that are not a single
+identifier, the URL flag at later holes, the `type` attribute of script/style (hence the JSON
+context), Markdown files. The full statement
 without the class restriction is refuted (`script_ctx_agree_false`: a quote in a regex literal, a
 quote in a template literal, a string ending in an escaped backslash). The documents outside `D`
 on which the lexer's context is wrong are recorded as known findings and replayed by the harness. -/
@@ -287,7 +293,7 @@ fault, the tokens before the first `{{` token are Text / StartURL / EndURL only,
 is at offset `|p|` and carries the context `c`, and it is inside a URL (an open StartURL) exactly
 when `u` says the attribute is one of the lexer's URL attributes.
 
-Partial: (1) only the FIRST hole — for later holes only `show_preserves_context` is proved;
+Partial: (1) the FIRST hole — for every hole see `ctx_agree_all_partial` (narrower class);
 (2) class `D` only — the full statement is refuted by `script_ctx_agree_false`; (3) HTML files
 that do not start with a `#!` line. -/
 theorem ctx_agree_partial (U : Lexer.Unicode) (p t : Bytes)
@@ -328,9 +334,33 @@ example : HtmlTok.abs Lexer.containsURL
 /-- the regex witness is outside D -/
 example : HtmlTok.run (LexerWitness.scriptOpen ++ LexerWitness.regexWitness) = .bad := by decide +kernel
 
+/-- **Every hole.** For an HTML template without shebang line that, read as it is, lies in class D
+and in which every template delimiter is a show `{{identifier}}` standing at a stable point of the
+reference run (`IdentTemplate`: the reference state there has an abstraction other than the Tag
+context and is not the tag-open state): the full lexer model scans it without fault and without
+error, EVERY `{{` token it emits starts at an offset `n` where `{{` stands in the text and carries
+the context that abstracts the reference tokenizer's state after `text[0..n)`, and no show is
+skipped. `AsciiU U`: the `unicode` predicates (parameters of the lexer model) classify ASCII
+letters / digits as such and `}` as neither.
+
+Partial: shows must be single identifiers (`{{s}}`, no spaces — the reference reads their bytes
+as text, which is harmless only for such bytes), no `{% %}` / `{# #}`, stable points only; the
+URL flag is proved for the first hole only (`ctx_agree_partial`); the unrestricted statement is
+refuted (`script_ctx_agree_false`). -/
+theorem ctx_agree_all_partial (U : Lexer.Unicode) (hU : LexCtx.AsciiU U) (text : Bytes)
+    (hT : LexCtx.IdentTemplate text) :
+    ∃ toks, Lexer.scanTemplate U Gen.LexTables.FormatHTML false text = .ok (toks, none) ∧
+      (∀ t ∈ toks, t.typ = Gen.LexTables.tokenLeftBraces →
+        ∃ n c u, t.start = ((n : Nat) : Int) ∧ text[n]? = some 0x7b ∧ text[n + 1]? = some 0x7b ∧
+          HtmlTok.abs Lexer.containsURL (HtmlTok.run (text.take n)) = some (c, u) ∧
+          t.ctx = LexCtx.ctxNat c) ∧
+      (∀ a, LexCtx.delimAt text a = true →
+        ∃ t ∈ toks, t.typ = Gen.LexTables.tokenLeftBraces ∧ t.start = ((a : Nat) : Int)) :=
+  LexCtx.all_shows_ctx U hU text hT
+
 /-- Lexing a show statement `{{ … }}` changes none of the fields that decide contexts (`ctx`,
-`contexts`, `tagName`, `tagAttr`, `tagIndex`, `tagCtx`) — the building block for the holes after
-the first one (their agreement theorem is not proved). -/
+`contexts`, `tagName`, `tagAttr`, `tagIndex`, `tagCtx`), whatever the show contains — the fact
+behind `ctx_agree_all_partial` that does not depend on the shape of the show. -/
 theorem show_preserves_context (E : Lexer.Env) (st st' : Lexer.St) (e : Option Lexer.LexErr)
     (h : Lexer.lexShow E st = .ok (st', e)) : Lexer.SameCtx st st' :=
   Lexer.lexShow_sameCtx E st st' e h
